@@ -3,7 +3,8 @@
    (Writer.encode_body) put on the wire, for ALL content bytes. *)
 From Coq Require Import String.
 From Verif Require Import Bytes Base64 LineBreaker QP WordEnc Writer.
-From Verif Require Import Eml EmlFront.
+From Verif Require Import MimeTree Render.
+From Verif Require Import Eml EmlFront EmlRoundtrip.
 From VerifGen Require Import Gen.
 From VerifProofs Require Import LineBreakerProofs CodecProofs QPRoundtripProofs C01Proofs.
 From Coq Require Import Lia.
@@ -19,11 +20,7 @@ Definition eml_decode_body (e : Writer.enc) (wire : bytes) : option bytes :=
   | EncOther _ => Some wire
   end.
 
-Definition content_of (p : producer) : bytes := concat (pchunks p).
-
-(* what must come back: the content; for quoted-printable with its line breaks in canonical CRLF form *)
-Definition expected_content (e : Writer.enc) (c : bytes) : bytes :=
-  match e with EncQP => canon_crlf c | _ => c end.
+(* [content_of], [expected_content] (quoted-printable: line breaks in canonical CRLF form): EmlRoundtrip.v *)
 
 Lemma body_b64 : forall p, wf_bytes (content_of p) = true ->
   eml_decode_body EncB64 (encode_body EncB64 p) = Some (content_of p).
